@@ -1,12 +1,12 @@
 #!/bin/bash
 # Apply each mutation to a scratch copy of the snapshot and run the quick check against it.
 # usage: mutation_tests/C16/run.sh [m1 m2 …]     (run from the framework root)
-SNAP=${VERIF_SNAP:-/tmp/work/repo_snap9}
+SNAP=${VERIF_SNAP:-/tmp/work/repo_snap13}
 MUT=/tmp/work/mut_C16
 HERE=$(cd "$(dirname "$0")" && pwd)
 ROOT=$(cd "$HERE/../.." && pwd)
 cd "$ROOT"
-ms=${@:-m1 m2 m3 m4 m5 m6 m7 m8 m9 revert_D05 revert_D23 revert_D14}
+ms=${@:-m1 m2 m3 m4 m5 m6 m7 m8 m9 m10 revert_D05 revert_D23 revert_D14}
 for m in $ms; do
   rm -rf "$MUT"; cp -r "$SNAP" "$MUT"
   find "$MUT" -name __pycache__ -prune -exec rm -rf {} + 2>/dev/null
